@@ -32,8 +32,8 @@ func runParamRoundTrips(r *Report, rng *rand.Rand, lab *Lab, cells map[string][]
 					}
 					continue
 				}
-				for i := 0; i < k; i++ {
-					v := genValue(rng, c)
+				for i := 0; i < valuesPerCell(c, k); i++ {
+					v := genValueAt(rng, c, i)
 					id := fmt.Sprintf("%s/%s/%d", name, c.Op, i)
 					sc := map[string]any{"id": id, "pkg": name, "opts": map[string]any{"short_circuit": -1, "strict_short_circuit": -1},
 						"client": map[string]any{"fn": "New" + opName(c.Op) + "Request", "args": clientArgs(c, &v), "then_serve": true}}
@@ -74,7 +74,6 @@ func classifyRoundTrip(o pobs, got json.RawMessage, handlers int) string {
 		}
 		return "omitted_optional_not_absent/" + o.fw + "/" + c.Loc
 	}
-	cl := o.val.Class
 	atoms := strings.Join(o.val.Atoms, "")
 	for _, m := range o.val.Obj {
 		atoms += m[1]
@@ -100,14 +99,28 @@ func classifyRoundTrip(o pobs, got json.RawMessage, handlers int) string {
 		return "json_path_parameter/" + o.fw
 	case c.Loc == "path" && strings.Contains(atoms, "/") && handlers == 0 && (o.fw == "gin" || o.fw == "gorilla" || o.fw == "iris"):
 		return "path_slash_not_routed/" + o.fw
-	case c.Loc == "header" && o.fw == "fiber" && handlers == 1 && (strings.HasPrefix(atoms, " ") || strings.HasSuffix(atoms, " ") || cl == "space"):
-		return "fiber_header_space_trimmed"
-	case c.Loc == "cookie" && (strings.ContainsAny(atoms, " ,;\"\\") || !isASCII(atoms)):
-		return "cookie_value_bytes_stripped_by_client"
+	case c.Loc == "header" && o.fw == "fiber" && handlers == 1 && edgeSpace(o.val):
+		return "fiber_header_space_trimmed" // only values with a blank at an edge of an element
+	case c.Loc == "cookie" && c.Kind == "styled" && (strings.ContainsAny(atoms, " ,;\"\\") || !isASCII(atoms)):
+		return "cookie_value_bytes_stripped_by_client" // styled cookies are written unescaped; JSON cookies are query-escaped and survive
 	case c.Loc == "cookie" && o.fw == "gin" && strings.Contains(atoms, "+") && handlers == 1:
 		return "gin_cookie_plus_unescaped_by_framework"
 	}
 	return "roundtrip/" + o.fw + "/" + c.Loc + "/" + st + "/" + c.Shape
+}
+
+// edgeSpace: some element of the value starts or ends with a blank
+func edgeSpace(v *pvalue) bool {
+	all := append([]string{}, v.Atoms...)
+	for _, m := range v.Obj {
+		all = append(all, m[1])
+	}
+	for _, a := range all {
+		if strings.HasPrefix(a, " ") || strings.HasSuffix(a, " ") {
+			return true
+		}
+	}
+	return false
 }
 
 func isASCII(s string) bool {
@@ -174,7 +187,7 @@ func runC04(r *Report, rng *rand.Rand, thorough bool) {
 		if ok && o.val != nil && o.cell.Kind == "styled" && o.res.Wire != nil && nd < 900 {
 			st := o.cell.effStyle()
 			isPrim := !strings.HasPrefix(o.cell.Shape, "arr:") && o.cell.Shape != "obj"
-			modelled := (st == "simple" || st == "form" || (st == "label" && !isPrim)) && (o.cell.Shape == "string" || o.cell.Shape == "int" || !isPrim)
+			modelled := (st == "simple" || st == "form" || st == "matrix" || st == "deepObject" || (st == "label" && !isPrim)) && (o.cell.Shape == "string" || o.cell.Shape == "int" || !isPrim)
 			if modelled {
 				single, pairs, err := observedWire(o.cell, o.res.Wire)
 				if cv, ok1 := coqValue(o.cell, o.val); err == nil && ok1 {
